@@ -118,3 +118,31 @@ func (logSink) Write(p []byte) (int, error) {
 
 // LogTo, when set (debug runs only), receives the server's log output.
 var LogTo io.Writer
+
+// RaceOff / RaceOn bracket harness bookkeeping that is shared between tasks: the
+// race detector then sees neither synchronisation (which would hide races of
+// the code under test) nor - when the caller is a //go:norace function - the
+// accesses themselves.
+func RaceOff() { raceDisable() }
+func RaceOn()  { raceEnable() }
+
+// Counter is an integer shared by tasks that creates no happens-before edges.
+type Counter struct{ v int64 }
+
+//go:norace
+func (c *Counter) Add(d int64) int64 { c.v += d; return c.v }
+
+//go:norace
+func (c *Counter) Load() int64 { return c.v }
+
+//go:norace
+func (c *Counter) Store(v int64) { c.v = v }
+
+// Str is a string shared by tasks that creates no happens-before edges.
+type Str struct{ s string }
+
+//go:norace
+func (x *Str) Load() string { return x.s }
+
+//go:norace
+func (x *Str) Store(s string) { x.s = s }
